@@ -63,6 +63,34 @@ def run(chk):
             continue
         vlib.tlc_must_pass(rr, "Trace_Routing chunk %d" % r["chunk"])
         okev += len(ch)
+    # a region moved under the client: Move.tla (and its defective twin), and what the servers saw in class M against it
+    mvr = vlib.run_tlc("Move", "Move.cfg", timeout=600)
+    vlib.tlc_must_pass(mvr, "Move")
+    chk.add_tlc(mvr)
+    mvn = vlib.run_tlc("Move", "Move_keepattached.cfg", timeout=600)
+    if mvn["violated"] != "Located":
+        raise vlib.MachineryError("Move_keepattached: expected the Located counter-example, got %r" % (mvn["violated"],))
+    chk.cov["model_counterexample_connection_kept_after_a_move"] = "Located"
+    ml = [l for l in open(os.path.join(wd, "c01_move_trace.ndjson")).read().splitlines() if l.strip()]
+    if len(ml) < 100:
+        raise vlib.MachineryError("class M left no trace (%d lines)" % len(ml))
+    mres = vlib.validate_chunks("Trace_Move", "move_trace.ndjson", [ml], parallel=1, timeout=600)[0]["res"]
+    chk.add_tlc(mres)
+    if mres["violated"]:
+        chk.violation("move-trace:" + str(mres["violated"]), "after a region had been moved to another server the state of the real client, as the "
+                      "servers saw it, violates %s of Move.tla" % mres["violated"], dict(kind="move-trace", trace=ml[:400]))
+    elif not mres["ok"] and "Postcondition Accepted" in mres["out"]:
+        k = max(1, mres["depth"])     # lines 1..k-1 are behaviours of Move.tla, line k is not
+        lo = k - 1
+        while lo > 0 and '"ev":"reset"' not in ml[lo]:
+            lo -= 1
+        hist = [json.loads(x) for x in ml[lo:k]]
+        chk.violation("move-trace:not-a-behaviour-of-Move", "scenario %s: after the region had been moved, what the servers saw of the real client is not a "
+                      "behaviour of Move.tla - no step of the specification explains %s after %s" % (
+                          hist[0].get("scenario"), json.dumps(hist[-1]), json.dumps(hist[1:-1])[-900:]), dict(kind="move-trace", history=hist))
+    else:
+        vlib.tlc_must_pass(mres, "Trace_Move")
+    chk.cov["move_trace_events_validated"] = len(ml)
     chk.cov["traces_validated_against_impl"] = r1["scenarios"] + nchunks
     chk.cov["events_validated"] = okev + validated
     # the batch path: calls grouped into one multi request must each be filed under the region that owns their row
